@@ -239,9 +239,32 @@ class MonteCarloEvaluator(Evaluator):
         return result_data_set
 
 
+class _CentralValue:
+    """View of an operand as seen by the derivative rules
+
+    The "value" of an operand is its formula evaluated at the current center values of the
+    source measurements. It must not be the buffered result of a nested DerivedValue, which
+    could be out of date or, depending on its error method, a Monte Carlo estimate.
+
+    """
+
+    def __init__(self, operand: "dt.ExperimentalValue"):
+        self._operand = operand
+
+    @property
+    def value(self):
+        """The center value of the operand, evaluated from its formula"""
+        return _evaluate_formula(self._operand)
+
+    def derivative(self, other: "dt.ExperimentalValue") -> float:
+        """The derivative of the operand with respect to another value"""
+        return self._operand.derivative(other)
+
+
 def differentiate(formula: "dt.Formula", variable: "dt.ExperimentalValue") -> float:
     """Find the derivative of a formula with respect to a variable"""
-    return __differentiator(formula.operator)(variable, *formula.operands)
+    operands = (_CentralValue(operand) for operand in formula.operands)
+    return __differentiator(formula.operator)(variable, *operands)
 
 
 def propagate_units(formula: "dt.Formula") -> Dict[str, dict]:
